@@ -180,4 +180,32 @@ theorem drain_collects : ∀ (n : Nat) (t : T), size t < n → (drain n t).1 = d
       simp only [hs.1, ih.1, ih.2]
       exact ⟨trivial, trivial⟩
 
+/-- A queued failure of a pending dial is among the events due, whatever is queued ahead of it. -/
+theorem mem_due_of_queued_dial_failure (t : T) (id : Id) (pre post : List ConnRes) (hc : t.conns = pre ++ .err id :: post)
+    (hd : id ∈ t.dials) (hpre : ∀ r ∈ pre, r ≠ .ok id ∧ r ≠ .err id) : Ev.dialFailure id ∈ due t := by
+  have key : ∀ (pre : List ConnRes) (ds : List Id), id ∈ ds → (∀ r ∈ pre, r ≠ .ok id ∧ r ≠ .err id) →
+      Ev.dialFailure id ∈ connEvs (pre ++ .err id :: post) ds := by
+    intro pre
+    induction pre with
+    | nil => intro ds hd _; simp [connEvs, hd]
+    | cons r pre ih =>
+      intro ds hd hpre
+      have hr := hpre r (List.mem_cons_self ..)
+      have hrest : ∀ r ∈ pre, r ≠ .ok id ∧ r ≠ .err id := fun x hx => hpre x (List.mem_cons_of_mem _ hx)
+      have keep : ∀ j, j ≠ id → id ∈ eraseId ds j := fun j hj => by
+        simp only [eraseId, List.mem_filter, hd, true_and]; simpa using fun h => hj h.symm
+      cases r with
+      | ok j =>
+        have hj : j ≠ id := fun e => hr.1 (by rw [e])
+        simp only [List.cons_append, connEvs, List.mem_cons]
+        exact Or.inr (ih _ (keep j hj) hrest)
+      | err j =>
+        have hj : j ≠ id := fun e => hr.2 (by rw [e])
+        simp only [List.cons_append, connEvs]
+        split
+        · simp only [List.mem_cons]; exact Or.inr (ih _ (keep j hj) hrest)
+        · exact ih _ hd hrest
+  simp only [due, hc, List.mem_append]
+  exact Or.inr (key pre t.dials hd hpre)
+
 end Litep2pVerif.Tcp.Poll
